@@ -114,7 +114,7 @@ Proof.
     intro E. injection E as E1 E2. subst r. cbn [r_failed_early r_outputs] in *. subst err1. rewrite Hdir, map_id.
     intros Hx Hy B1.
     destruct (results_of_ok _ _ _ ER) as [_ [HC [_ ECo]]].
-    destruct (compile_ok_facts _ _ _ HC Hdir ECo) as [ND _]. apply NoDup_ckey_paths in ND.
+    destruct (compile_ok_facts _ _ _ HC Hdir ECo) as [ND _].
     assert (y = x) by (apply (NoDup_map_eq o_path results); assumption). subst. reflexivity.
 Qed.
 
